@@ -49,6 +49,8 @@ def handle : List String → Verdict
           else some s!"impl=({Bytes.toHex ip},{Bytes.toHex iv}) model=({Bytes.toHex mp},{Bytes.toHex mv}) templ.SanitizeCSS impl={Bytes.toHex tc} model={Bytes.toHex mtc} styleItemsAgree={itemsOk}",
         predfail :=
           if !pairSafe ip iv then some s!"sanitised pair is not safely one declaration: {Bytes.toHex ip}:{Bytes.toHex iv}"
+          -- templ.SanitizeCSS given the plain string (whatever it was given before): the declaration of a safely sanitised pair
+          else if !(tc == ip ++ [58] ++ iv ++ [59]) then some s!"templ.SanitizeCSS returned {Bytes.toHex tc} for a plain string; the sanitised declaration is {Bytes.toHex (ip ++ [58] ++ iv ++ [59])}"
           else
             -- the style-attribute item as the implementation wrote it (map form and key/value form): inside style="…" it
             -- must not be able to end the attribute, and the browser must read back exactly name:value;
